@@ -142,6 +142,42 @@ def dump_doc(d):
 
 
 # ------------------------------------------------------------------ canonical form
+import re as _re
+_PROVN_TOK = _re.compile(r'"""(?:\\.|(?!""")[\s\S])*"""|"(?:\\.|[^"\\])*"|\'[^\']*\'|<[^>]*>|%%|@[A-Za-z0-9-]*|[()\[\],;=]|[^\s()\[\],;=%@"\'<>]+')
+
+
+def norm_provn(text):
+    """Token list of a PROV-N text with the items of every [...] attribute list sorted
+    (attribute/value iteration order of Python dicts/sets is not modelled)."""
+    toks = _PROVN_TOK.findall(text)
+    out = []
+    i = 0
+    while i < len(toks):
+        if toks[i] == "[":
+            j = i + 1
+            items, cur = [], []
+            while j < len(toks) and toks[j] != "]":
+                if toks[j] == ",":
+                    items.append(cur)
+                    cur = []
+                else:
+                    cur.append(toks[j])
+                j += 1
+            items.append(cur)
+            items.sort()
+            out.append("[")
+            for k, it in enumerate(items):
+                if k:
+                    out.append(",")
+                out.extend(it)
+            out.append("]")
+            i = j + 1
+        else:
+            out.append(toks[i])
+            i += 1
+    return out
+
+
 def canon(t):
     """Order-insensitive normal form of an observation tree: attribute lists and value
     sets sorted (Python sets have no modelled iteration order; defaultdict reads may
@@ -160,6 +196,8 @@ def canon(t):
             else:
                 out.append(canon(part))
         return out
+    if t and t[0] == "text" and len(t) == 2 and isinstance(t[1], str):
+        return ["text-tokens"] + norm_provn(t[1])
     if t and t[0] == "arr":
         return ["arr"] + sorted((canon(x) for x in t[1:]), key=dumps)
     if t and t[0] == "obj":
@@ -339,6 +377,9 @@ class Impl:
             nd = M.ProvDocument.deserialize(content=text, format="json")
             self.docs.append(nd)
             return ["handle", str(len(self.docs) - 1)]
+        if k == "ExportProvn":
+            d = self.docs[int(op[1])]; self._lib()
+            return ["text", d.get_provn()]
         if k == "ObserveAll":
             return [dump_doc(d) for d in self.docs]
         return ["unknown-op", k]
